@@ -13,7 +13,7 @@ BOUNDS = ("K symbolic operations (kind in {new_argument, remove_argument, new_at
 def run(tier, seed):
     return kani_check.run("C12", ["c12_"], tier, seed, dict(functions=FUNCS, bounds=BOUNDS,
                           assumptions=["set model of kani/src/store.rs; natively cross-checked on all 256 / 4096 histories of length 2 / 3"]),
-                          jobs=3, timeout_s=2400 if tier == "quick" else 5400)
+                          jobs=4)
 
 
 def replay(path):
